@@ -237,4 +237,21 @@ PROPS = {
                 "address request continues the index sequence without a skipped or duplicated index. Non-trivial = the "
                 "injected fault actually fired.",
     },
+    "C19": {
+        "level": "exploration",
+        "quick_runs": 2400, "thorough_runs": 120000, "chunk": 50,
+        "thorough_params": {"steps": 150, "pre": 30},
+        "nontrivial_stat": "probe.request_answered",
+        "rule": "one run = an instance with 0-3 wallets following a generated chain (payments of all kinds, NullData outputs, "
+                "forks, unconfirmed transactions) while a client issues 10-70 requests to the real api.APIServer methods "
+                "(29 methods; gRPC transport not involved) interleaved with handler/worker steps, so requests meet the wallet "
+                "in every state: nothing selected, importing, being removed, coins pending or spent. Each argument is drawn "
+                "either from fitting material of the world (addresses of the selected/another wallet/strangers, staking and "
+                "binding forms, transaction ids and outpoints of unspent/spent/pending/foreign outputs, drafts and signed "
+                "transactions returned earlier, crafted transactions, right passphrases, exported keystores, mnemonics) or "
+                "from boundary/malformed shapes (per-request mischief level 0-60%). Oracle: no panic in the request or in the "
+                "follower goroutines, every request returns a response or an error, none exceeds a work budget of 60000 "
+                "storage/chain-node queries (worlds have <100 blocks), the handler and worker stay alive and every chain event "
+                "is processed at fair quiescence. Non-trivial = at least one request was answered (not refused).",
+    },
 }
